@@ -267,7 +267,7 @@ def run(rep, tier):
         else:
             check_ipow(rep, h)
     c05.declare(rep)
-    for r in ("C05.f", "C05.a", "C05.cuda", "C05.b", "C05.b-hilbert", "C05.d", "C05.e"):
+    for r in ("C05.g", "C05.f", "C05.a", "C05.cuda", "C05.b", "C05.b-hilbert", "C05.d", "C05.e"):
         rep.rules.pop(r, None)
     sizing(rep, tier)
     return hs
